@@ -97,6 +97,26 @@ struct ChildProxy {
     err_off: u64,
 }
 
+/// user + system CPU time of the process so far, in ms (clock ticks are 10 ms on Linux)
+fn proc_cpu_ms(pid: u32) -> i64 {
+    let s = std::fs::read_to_string(format!("/proc/{}/stat", pid)).unwrap_or_default();
+    // the command name (field 2) may contain spaces: count from the closing parenthesis
+    let rest = match s.rfind(')') {
+        Some(i) => s[i + 1..].to_string(),
+        None => return -1,
+    };
+    let f: Vec<&str> = rest.split_whitespace().collect();
+    // after ')' the fields start at #3 (state): utime is #14, stime #15
+    let ut: i64 = f.get(11).and_then(|x| x.parse().ok()).unwrap_or(0);
+    let st: i64 = f.get(12).and_then(|x| x.parse().ok()).unwrap_or(0);
+    (ut + st) * 10
+}
+
+/// CPU time a request of `bytes` bytes may consume (generous: the monitor is about unbounded work)
+fn cpu_budget_ms(bytes: usize) -> i64 {
+    3000 + (bytes as i64 / 1024) * 30
+}
+
 fn proc_kb(pid: u32, field: &str) -> i64 {
     let s = std::fs::read_to_string(format!("/proc/{}/status", pid)).unwrap_or_default();
     for l in s.lines() {
@@ -182,6 +202,12 @@ impl ChildProxy {
 
 /// what the hostile connection did within the deadline
 fn exchange(port: u16, input: &[u8], deadline: Duration, linger: Duration) -> (String, u128, usize) {
+    exchange_grace(port, input, deadline, linger, Duration::from_millis(0), &|| true)
+}
+
+/// like `exchange`; when nothing arrived within `deadline` keep waiting up to `grace` longer (the machine may just be
+/// busy), polling `give_up` twice a second (true = stop waiting: the verdict is already clear from the CPU time used)
+fn exchange_grace(port: u16, input: &[u8], deadline: Duration, linger: Duration, grace: Duration, give_up: &dyn Fn() -> bool) -> (String, u128, usize) {
     use std::io::Read;
     let t0 = Instant::now();
     let mut sock = match std::net::TcpStream::connect(("127.0.0.1", port)) {
@@ -204,9 +230,18 @@ fn exchange(port: u16, input: &[u8], deadline: Duration, linger: Duration) -> (S
     let mut outcome = "nothing".to_string();
     let mut first_ms = 0u128;
     let end = Instant::now() + deadline;
+    let hard_end = end + grace;
     loop {
         let now = Instant::now();
-        let wait = if got > 0 { linger } else if now >= end { break } else { end - now };
+        let wait = if got > 0 {
+            linger
+        } else if now < end {
+            end - now
+        } else if now < hard_end && !give_up() {
+            (hard_end - now).min(Duration::from_millis(500))
+        } else {
+            break;
+        };
         sock.set_read_timeout(Some(wait.max(Duration::from_millis(1)))).ok();
         match sock.read(&mut buf) {
             Ok(0) => {
@@ -226,7 +261,12 @@ fn exchange(port: u16, input: &[u8], deadline: Duration, linger: Duration) -> (S
             Err(e) => {
                 use std::io::ErrorKind::*;
                 match e.kind() {
-                    WouldBlock | TimedOut => break,
+                    WouldBlock | TimedOut => {
+                        if got > 0 {
+                            break;
+                        }
+                        continue; // the loop head decides whether the deadline / grace period is over
+                    }
                     _ => {
                         if got == 0 {
                             outcome = "closed".into();
@@ -477,14 +517,30 @@ fn run_case(p: &mut ChildProxy, c: &Case, phase: &str, idx: usize) -> Value {
     let rss0 = proc_kb(pid, "VmRSS");
     let size = c.input.len();
     let deadline = Duration::from_millis(4000 + (size as u64 / (1 << 20)) * 1500);
-    let (outcome, ms, got) = exchange(p.port, &c.input, if c.complete { deadline } else { Duration::from_millis(250) }, Duration::from_millis(30));
-    let (pr, pr_ms) = probe(p.port, Duration::from_millis(6000));
+    let cpu0 = proc_cpu_ms(pid);
+    // wall-clock time depends on how busy the machine is: when nothing comes back in time, keep waiting (up to 40 s more)
+    // unless the process has already burnt more CPU than any request of this size may
+    let give_up = || proc_cpu_ms(pid) - cpu0 > 2 * cpu_budget_ms(size);
+    let (outcome, ms, got) = if c.complete {
+        exchange_grace(p.port, &c.input, deadline, Duration::from_millis(30), Duration::from_secs(40), &give_up)
+    } else {
+        exchange(p.port, &c.input, Duration::from_millis(250), Duration::from_millis(30))
+    };
+    let late = c.complete && ms > deadline.as_millis();
+    let (mut pr, mut pr_ms) = probe(p.port, Duration::from_millis(6000));
+    if pr != "reply" && p.alive() {
+        // a busy machine is not a wedged proxy: ask again, patiently
+        let (pr2, ms2) = probe(p.port, Duration::from_secs(30));
+        pr = pr2;
+        pr_ms += ms2;
+    }
+    let cpu_ms = proc_cpu_ms(pid) - cpu0;
     let hwm = proc_kb(pid, "VmHWM");
     let alive = p.alive();
     let exit = if alive { "running".to_string() } else { p.exit_desc() };
     let panics = p.new_panics();
     json!({"ev": "case", "idx": idx, "family": c.family, "phase": phase, "desc": c.desc, "bytes": size, "complete": c.complete,
-           "outcome": outcome, "ms": ms as u64, "reply_bytes": got, "probe": pr, "probe_ms": pr_ms as u64, "alive": alive, "exit": exit,
+           "outcome": outcome, "late": late, "cpu_ms": cpu_ms, "cpu_budget_ms": cpu_budget_ms(size), "ms": ms as u64, "reply_bytes": got, "probe": pr, "probe_ms": pr_ms as u64, "alive": alive, "exit": exit,
            "panics": panics.len(), "panic_at": panics.join(";"), "rss_before_kb": rss0, "hwm_after_kb": hwm,
            "head": String::from_utf8_lossy(&c.input[..size.min(48)]).to_string()})
 }
@@ -508,6 +564,7 @@ pub fn run_many<W: Write>(w: &mut W, family: &str, seed: u64, random_count: usiz
         }
     };
     let mut idx = 0usize;
+    let mut bad = 0usize;
     for phase in ["before_meta", "after_meta"] {
         if phase == "after_meta" {
             // metadata pointing at an address nobody listens on: forwarded commands fail fast with an error reply
@@ -528,9 +585,18 @@ pub fn run_many<W: Write>(w: &mut W, family: &str, seed: u64, random_count: usiz
                 let _ = exchange(proxy.port, &enc(&[b("UMCTL"), b("SETREPL"), b("1"), b("FORCE")]), Duration::from_secs(5), Duration::from_millis(5));
             }
             let dead = !line["alive"].as_bool().unwrap_or(true);
-            let wedged = line["probe"] != "reply";
+            // a thread that is still spinning would be charged to the next cases: start over
+            let spinning = line["cpu_ms"].as_i64().unwrap_or(0) > line["cpu_budget_ms"].as_i64().unwrap_or(i64::MAX);
+            let wedged = line["probe"] != "reply" || spinning;
             let _ = writeln!(w, "{}", line);
             if dead || wedged {
+                bad += 1;
+                if bad >= 6 {
+                    // enough evidence; every further case of this kind costs a long wait
+                    let _ = writeln!(w, "{}", json!({"ev": "aborted", "after": idx, "why": "six cases killed or wedged the proxy"}));
+                    proxy.kill();
+                    return 0;
+                }
                 proxy.kill();
                 let _ = writeln!(w, "{}", json!({"ev": "restart", "after": idx, "why": if dead { "dead" } else { "wedged" }}));
                 proxy = match ChildProxy::spawn(port, errfile, 2) {
